@@ -24,13 +24,16 @@ SRCS = ['datastruct/elasticarray.c', 'datastruct/elasticqueue.c', 'datastruct/pt
 WRAPS = ('poll', 'recv', 'send', 'connect', 'getsockopt', 'accept', 'socket', 'close',
          'clock_gettime', 'bind', 'setsockopt', 'malloc', 'calloc', 'realloc', 'free', 'strdup')
 SCENARIOS = ['array', 'queue', 'map', 'heap', 'timerqueue', 'events', 'netio', 'connect',
-             'netbuf', 'http', 'util', 'pool']
+             'netbuf', 'http', 'https', 'util', 'pool']
 
 
 def build(ctx, nopool):
-    objs = ctx.builder.lib('asan', SRCS, nopool=nopool)
+    objs = ctx.builder.lib('asan', SRCS + ['http/https.c', 'network_ssl/network_ssl.c',
+                                           'network_ssl/network_ssl_compat.c', 'netbuf/netbuf_ssl.c'],
+                           nopool=nopool)
     return ctx.builder.driver('c14', 'asan', ['c14_oom.c', 'common/simk.c', 'common/wrapalloc.c'],
-                              objs, wraps=WRAPS, libs=(), nopool=nopool, defs=('VH_WRAPALLOC',))
+                              objs, wraps=WRAPS, libs=('-lssl', '-lcrypto'), nopool=nopool,
+                              defs=('VH_WRAPALLOC',))
 
 
 def _job(a):
